@@ -97,6 +97,32 @@ func init() {
 	})
 }
 
+// Pointer-free struct kinds. gob omits zero-valued struct fields (also inside
+// slice and array elements), so a decoder that does not clear reused memory
+// leaves another row's value in every field that should be zero. Their domains
+// mix zero and non-zero fields such that consecutive batches / reads put a zero
+// field where the previous use of the same memory held a non-zero one.
+type S2 struct{ X, Y int }
+
+type S3 struct {
+	A int32
+	B float64
+	C bool
+}
+
+type S8 struct{ X, Y int8 }
+
+type SN struct {
+	I struct{ X, Y int16 }
+	Z uint8
+}
+
+func sn(x, y int16, z uint8) SN {
+	var v SN
+	v.I.X, v.I.Y, v.Z = x, y, z
+	return v
+}
+
 type kind int
 
 const (
@@ -120,6 +146,10 @@ const (
 	kPtr
 	kCustom
 	kArr
+	kS2
+	kS3
+	kArrS
+	kNest
 	numKinds
 )
 
@@ -161,6 +191,12 @@ var kinds = [numKinds]*kindInfo{
 		sentinel: P{P: ip(-99), S: "SENT"}},
 	kCustom: {name: "C", class: "custom", dom: []interface{}{C{0}, C{5}, C{-100000}, C{7}}, sentinel: C{-99}},
 	kArr:    {name: "[2]int", class: "array", dom: []interface{}{[2]int{}, [2]int{1, -1}, [2]int{math.MaxInt64, math.MinInt64}}, sentinel: [2]int{-99, -99}},
+	kS2:     {name: "S2", class: "plainstruct", dom: []interface{}{S2{1, 2}, S2{0, 5}, S2{}, S2{7, 0}}, sentinel: S2{-99, -99}},
+	kS3: {name: "S3", class: "plainstruct", dom: []interface{}{S3{1, 2.5, true}, S3{0, 3.5, false}, S3{}, S3{4, 0, true}},
+		sentinel: S3{-99, -99.5, true}},
+	kArrS: {name: "[2]S8", class: "plainstruct", dom: []interface{}{[2]S8{{1, 2}, {3, 4}}, [2]S8{{0, 5}, {6, 0}}, [2]S8{}, [2]S8{{7, 0}, {0, 8}}},
+		sentinel: [2]S8{{-99, -99}, {-99, -99}}},
+	kNest: {name: "SN", class: "plainstruct", dom: []interface{}{sn(1, 2, 3), sn(0, 5, 0), sn(0, 0, 0), sn(7, 0, 9)}, sentinel: sn(-99, -99, 99)},
 }
 
 func init() {
